@@ -116,6 +116,9 @@ class IoSim(Engine):
             spec = draw(plans.specs('s0', max_classes=4))
             names = [c['name'] for c in spec['classes']]
             order = list(draw(st.permutations(names)))
+            # how a file on the mount is named: plainly, through a sub-directory, through a
+            # symlinked directory followed by '..' (the OS resolves the link first), oddly
+            naming = draw(st.sampled_from(['plain', 'plain', 'plain', 'subdir', 'link_dotdot', 'odd']))
             knobs = {'buffer_size': draw(st.sampled_from([None, None, 8, 64, 4096])),
                      'text_chunk': draw(st.sampled_from([None, None, 1, 5, 32, 4096]))}
             chunks = [draw(chunk_lists()) for _ in range(draw(st.integers(1, 3)))]
@@ -145,7 +148,7 @@ class IoSim(Engine):
                     # the name of a file that exists on the mount (with other content)
                     doc = '<MNT>/other.yaml' + draw(st.sampled_from(['', '', '\n']))
                     root = draw(st.sampled_from(['str', 'any', root]))
-                return {'mode': 'load', 'spec': spec, 'root': root, 'order': order,
+                return {'mode': 'load', 'spec': spec, 'root': root, 'order': order, 'naming': naming,
                         'doc': doc, 'knobs': knobs, 'chunks': chunks, 'corruptions': cs}
             else:
                 roots = [t for t in plans.root_types(spec)
@@ -160,9 +163,14 @@ class IoSim(Engine):
                 # followed by more, a prefix of it, the text itself, same length but different
                 pre = draw(st.sampled_from([None, None, 'short', 'longer', 'extends', 'extends',
                                             'prefix', 'same', 'samelen']))
-                return {'mode': 'dump', 'spec': spec, 'order': order, 'value': val,
+                return {'mode': 'dump', 'spec': spec, 'order': order, 'value': val, 'naming': naming,
                         'fn': fn, 'knobs': knobs, 'chunks': chunks, 'preexisting': pre}
         return plan()
+
+    @staticmethod
+    def file_name(plan, base):
+        return {'subdir': 'real/inner/' + base, 'link_dotdot': 'link/../' + base,
+                'odd': 'sp ace ~[x]*\u00e9 ' + base}.get(plan.get('naming'), base)
 
     # ------------------------------------------------------------- execute
     def execute(self, plan, stats):
@@ -186,6 +194,8 @@ class IoSim(Engine):
             stats.count('function_creation_failed')
             return []
         mount = self.mount
+        docname = self.file_name(plan, 'doc.yaml')
+        stats.count('cases_naming_' + str(plan.get('naming')))
         doc = plan['doc']
         if '<MNT>' in doc:
             doc = doc.replace('<MNT>', mount.dir)
@@ -260,7 +270,7 @@ class IoSim(Engine):
             st_ = mount.iostats = simio.IoStats()
             rawplan = {'chunks': chunks, 'fault': fault, 'eintr': eintr}
             if kind == 'path':
-                p = mount.put('doc.yaml', data)
+                p = mount.put(docname, data)
                 mount.plans[p] = rawplan
                 src = pathlib.Path(p)
             elif kind == 'stringio':
@@ -381,7 +391,7 @@ class IoSim(Engine):
                 else:
                     stats.count('fault_not_delivered')
         for en in ('ENOENT', 'EACCES', 'EMFILE'):
-            p = mount.put('doc.yaml', data)
+            p = mount.put(docname, data)
             mount.open_faults[p] = en
             st_ = mount.iostats = simio.IoStats()
             out, _ = ops.call(lambda: fn(pathlib.Path(p)))
@@ -432,6 +442,8 @@ class IoSim(Engine):
         mount = self.mount
         knobs = mount.knobs
         stats.count('cases_dump')
+        outname = self.file_name(plan, 'out.txt')
+        stats.count('cases_naming_' + str(plan.get('naming')))
         stats.count('cases_dump_preexisting_' + str(plan['preexisting']))
         violations = []
         seen = set()
@@ -484,18 +496,18 @@ class IoSim(Engine):
                 getter = None
                 closer = None
                 if kind in ('strpath', 'path'):
-                    mount.remove('out.txt')
+                    mount.remove(outname)
                     pre = pre_content(T)
                     if pre is not None:
-                        mount.put('out.txt', pre)
-                    p = mount.path('out.txt')
+                        mount.put(outname, pre)
+                    p = mount.path(outname)
                     mount.plans[p] = rawplan
                     if open_errno:
                         mount.open_faults[p] = open_errno
                     sink = p if kind == 'strpath' else pathlib.Path(p)
 
                     def getter():
-                        b, where = mount.content('out.txt')
+                        b, where = mount.content(outname)
                         return None if b is None else b.decode('utf-8', 'replace')
                 elif kind == 'stringio':
                     sink = io.StringIO()
